@@ -131,7 +131,9 @@ def run_history(case, p, crash_at=None, on_round=None, wrap=True, after_close=No
     atoms = Atoms("Ar" * n0, positions=[[1, 1, 1], [3, 3, 3], [5, 5, 2]][:n0], cell=[7, 7, 7], pbc=True)
     atoms.calc = ModelCalc("pair", {"k": 0.05, "center": (3.5, 3.5, 3.5), "a": 0.4, "s": 1.6})
     if wrap:
-        files = {t: CountingFile(open(path, case["mode"]), t, shared) for t, path in p.items()}
+        # (with no earlier content both modes start from an empty file, so the reference images are the same)
+        fmode = "w" if (case["mode"] == "a" and not case["pre"] and case.get("seed", 0) % 2 == 0) else case["mode"]
+        files = {t: CountingFile(open(path, fmode), t, shared) for t, path in p.items()}
         kw = {"logfile": files["log"], "restart_file": files["restart"], "trajectory": files["traj"]}
     else:
         kw = {"logfile": p["log"], "restart_file": p["restart"], "trajectory": p["traj"]}
